@@ -647,3 +647,34 @@ Example C16_example_walked :
                        (hd {| df_name := []; df_verb := 0; df_parts := []; df_req := []; df_resp := None |} (all_methods ex_list_pkg))) = Some l
             /\ l <> [].
 Proof. eexists. split; [vm_compute; reflexivity|discriminate]. Qed.
+
+(* ---- the arms of buildListRequest's callback as probes of list_step (proofs/PipelineListProbeProofs.v) ----------
+   gen/SwaggerGen.v list_scalar_arms / list_enum_arm: for every arm of the Go switch on the scalar field type the
+   add* functions its body calls (re-read from internal/j5client/list.go on every run). list_step, run on an item
+   object with one property of that type whose list rules carry all three constraints, lists the property in exactly
+   those lists; object / oneof references are walked into, not listed. *)
+From J5V.proofs Require Import PipelineListProbeProofs.
+
+Theorem C16_list_arms_probe :
+  forallb (fun arm => lp_not_scalar (fst arm) || Corr.list_eqb String.eqb (lp_calls (TScalar (fst arm))) (snd arm))
+          SwaggerGen.list_scalar_arms = true
+  /\ Corr.list_eqb String.eqb (lp_calls (TRef "enum" (bytes_of "p.v1", bytes_of "Kind"))) SwaggerGen.list_enum_arm = true
+  /\ length SwaggerGen.list_scalar_arms = 14%nat
+  /\ lp_calls (TRef "object" lp_root) = [] /\ lp_calls (TRef "oneof" lp_root) = [].
+Proof. exact list_arms_probe. Qed.
+Print Assumptions C16_list_arms_probe.
+
+(* the declarative reading determines the whole request; for a declaration without duplicate properties the
+   client method of the model is THE client method that meets the declaration *)
+Theorem C16_client_meets_unique_request : forall svc d cm cm', NoDup (df_req d) ->
+  client_meets svc d cm -> client_meets svc d cm' -> cm_req cm = cm_req cm'.
+Proof. exact client_meets_unique_request. Qed.
+Print Assumptions C16_client_meets_unique_request.
+
+Theorem C16_declared_client_is_the_one : forall (to_snake : str -> str) g svc d cm,
+  wf_decl to_snake (df_decl d) -> NoDup (df_req d) -> client_meets svc d cm ->
+  cm_service cm = cm_service (declared_client g svc d) /\ cm_name cm = cm_name (declared_client g svc d)
+  /\ cm_verb cm = cm_verb (declared_client g svc d) /\ cm_path cm = cm_path (declared_client g svc d)
+  /\ cm_req cm = cm_req (declared_client g svc d) /\ cm_resp cm = cm_resp (declared_client g svc d).
+Proof. exact declared_client_is_the_one. Qed.
+Print Assumptions C16_declared_client_is_the_one.
